@@ -31,7 +31,47 @@ def rule_default(body, I, M):
         why = "implementation and model differ"
     return dict(corr_ok=corr_ok, prop_ok=prop_ok, nontrivial=len(i or "") >= 2, bucket=(i or "?")[-1:], why=why)
 
-RULES = {"default": rule_default}
+def _bad_impl(i):
+    return i is not None and (i.startswith("CRASH") or i.startswith("HANG") or i.startswith("HARNESS-PANIC") or i in ("MISSING", "NOTRUN"))
+
+def rule_cborenc(body, I, M):
+    """C02: flags, write calls and the decoder round trip; S/SR present only for well-formed input."""
+    corr_ok = all(I.get(k) == M.get(k) for k in ("I", "W", "R")) if True else False
+    corr_ok = (I.get("I") == M.get("M")) and I.get("W") == M.get("W") and I.get("R") == M.get("R")
+    prop_ok, why = True, ""
+    if _bad_impl(I.get("I")):
+        return dict(corr_ok=False, prop_ok=False, nontrivial=True, bucket="crash", why="implementation " + I.get("I"))
+    if "S" in M:
+        n = len(body.split(" ", 1)[1].split(","))
+        if I.get("I") != "." * (n - 1) + "D":
+            prop_ok, why = False, "well-formed sequence not accepted with done exactly on the last token: " + str(I.get("I"))
+        elif (I.get("W") or "").replace("|", "").replace("-", "") != M["S"].replace("-", ""):
+            prop_ok, why = False, "bytes differ from the RFC 7049 encoding " + M["S"][:80]
+        elif I.get("R") != M.get("SR"):
+            prop_ok, why = False, "decoding the output does not give back the tokens: %s vs %s" % (I.get("R"), M.get("SR"))
+    if not corr_ok and not why:
+        why = "implementation and model differ"
+    return dict(corr_ok=corr_ok, prop_ok=prop_ok, nontrivial=("S" in M), bucket=("wf" if "S" in M else "other"), why=why)
+
+def rule_cbordec(body, I, M):
+    """C04: tokens / rest / outcome against the model (exact class, steps) and the reference parser."""
+    i, m, s = I.get("I", ""), M.get("M", ""), M.get("S", "")
+    if _bad_impl(i):
+        return dict(corr_ok=False, prop_ok=False, nontrivial=True, bucket="crash", why="implementation " + i)
+    corr_ok = (i == m) and I.get("n") == M.get("n")
+    iok = i.endswith("/ok")
+    if s == "E":
+        prop_ok = not iok and not i.endswith("/panic") and not i.endswith("/loop")
+        why = "" if prop_ok else "accepted (or panicked/looped on) bytes the reference decoder rejects: " + i
+    else:
+        prop_ok = (i == s)
+        why = "" if prop_ok else "well-formed item decoded as %s, reference says %s" % (i, s)
+    if not corr_ok and not why:
+        why = "implementation and model differ"
+    return dict(corr_ok=corr_ok, prop_ok=prop_ok, nontrivial=(iok and "," in i) or (not iok and len(body) > 14),
+                bucket=i.rsplit("/", 1)[-1], why=why)
+
+RULES = {"default": rule_default, "cborenc": rule_cborenc, "cbordec": rule_cbordec}
 
 PROPS = {}
 
@@ -47,4 +87,28 @@ PROPS["C14"] = dict(
           "panics. Tie: exhaustive prefix-pruned token trees + random deep sequences through the real Step functions.",
     rule_text="token sequences: prefix-pruned exhaustive tree over the token alphabet for each of the three encoders, plus random deep "
               "mostly-well-formed sequences with injected faults; non-trivial = at least two steps taken; distinct by case text",
+)
+
+PROPS["C02"] = dict(
+    level="proof",
+    lean_module="RefmtProofs.Props.C02",
+    theorems=[],
+    streams=[dict(name="cborenc", gen="cborenc", rule="cborenc")],
+    title="CBOR encoding is lossless and shortest-form",
+    claim="(work in progress)",
+    rule_text="token sequences for the CBOR encoder: every head-size boundary in every position, all values below 2^16 (quick) / 2^22 "
+              "(thorough), string lengths across head boundaries, sampled float bit patterns, tags across head sizes, deep nesting, "
+              "random well-formed trees; non-trivial = well-formed input (spec encoding available); distinct by case text",
+)
+PROPS["C04"] = dict(
+    level="proof",
+    lean_module="RefmtProofs.Props.C04",
+    theorems=[],
+    streams=[dict(name="cbordec", gen="cbordec", rule="cbordec")],
+    title="CBOR decoder accepts exactly well-formed CBOR",
+    claim="(work in progress)",
+    rule_text="byte strings for the CBOR decoder: all strings of <= 2 bytes, all 3-symbol (thorough: 4-symbol, and all 3-byte) strings over the "
+              "structurally significant alphabet, all 65536 half floats, sampled singles, every head boundary in every width, "
+              "grammar-generated items in random legal spellings with trailing bytes, every proper prefix, single-edit mutants, adversarial "
+              "length headers, deep nesting; non-trivial = multi-token item or a rejected input longer than one byte",
 )
